@@ -59,6 +59,7 @@ def generate(seed, tier, cfg):
         for n in notes:
             n["note_on"] = int(n["note_on"])
             n["note_off"] = max(n["note_on"], int(round(n["note_off"])))
+    late = k.choice((0, 0, 0, 0, 0, 600, 1800, 3599))
     if w.random() < 0.5:
         notes.sort(key=lambda n: n["note_on"])
     nc = k.choice((0, 0, 1, 2, 4, 8))
@@ -73,6 +74,18 @@ def generate(seed, tier, cfg):
                 continue
             used.add(t)
         controls.append({"type": {64: "sustain_pedal", 67: "soft_pedal", 1: "modulation"}[num], "number": num, "time": t, "value": w.choice((0, 127, 64, 63, 65, 20, 100, w.randrange(0, 128))), "track": 0, "channel": 0})
+    if late:
+        # a passage late in a long recording: the same events ten minutes to an hour in, with the pedal lifted a few
+        # milliseconds after a release (absolute times are large, the differences that matter stay small)
+        for n in notes:
+            n["note_on"] += late
+            n["note_off"] += late
+        for c in controls:
+            c["time"] += late
+        if notes:
+            n = w.choice(notes)
+            controls.append({"type": "sustain_pedal", "number": 64, "time": n["note_on"], "value": 127, "track": 0, "channel": 0})
+            controls.append({"type": "sustain_pedal", "number": 64, "time": n["note_off"] + w.choice((0.003, 0.004, 0.0015)), "value": 0, "track": 0, "channel": 0})
     if w.random() < 0.5:
         controls.sort(key=lambda c: c["time"])
     ops = []
@@ -95,14 +108,14 @@ def generate(seed, tier, cfg):
         elif x < 0.78:
             ops.append({"k": "rm_control", "i": o.randrange(0, 10)})
         elif x < 0.82:
-            ops.append({"k": "reclock", "ppq": o.choice((480, 960, 96, 1000)), "mpq": o.choice((500000, 600000, 250000, 454545))})
+            ops.append({"k": "reclock", "ppq": o.choice((480, 960, 96, 1000, 9600, 15360)), "mpq": o.choice((500000, 600000, 250000, 454545)), "np": o.choice((None, None, "int32", "int64"))})
         elif x < 0.90:
             ops.append({"k": "note_array"})
         elif x < 0.95:
             ops.append({"k": "rebuild"})
         else:
             ops.append({"k": "wrap", "extra_tracks": o.choice(((0,), (0, 1), (1, 3))), "meta_track": o.choice((None, None, 5, 2)), "pedal_only": o.choice((0, 0, 1, 2, 3))})
-    return {"notes": notes, "controls": controls, "ops": ops, "route": cfg, "knobs": {"ppq": k.choice((480, 960, 96, 1)), "mpq": k.choice((500000, 600000, 250000)), "thr0": k.choice((64, 64, 0, 127, 100))}}
+    return {"notes": notes, "controls": controls, "ops": ops, "route": cfg, "knobs": {"ppq": k.choice((480, 960, 96, 1)), "mpq": k.choice((500000, 600000, 250000)), "thr0": k.choice((64, 64, 0, 127, 100)), "late": late}}
 
 
 # ----------------------------------------------------------------------------
@@ -405,9 +418,12 @@ def execute(case, keep_log=False):
                     outcome = len(na)
                 elif k == "reclock":
                     if not had_ticks:
-                        pp.ppq, pp.mpq = op["ppq"], op["mpq"]
+                        # the resolution may come out of an integer array field (numpy's 32 or 64 bit integers)
+                        pp.ppq, pp.mpq = (getattr(np, op["np"])(op["ppq"]) if op.get("np") else op["ppq"]), op["mpq"]
                         res.probe("reclocked")
-                    outcome = [pp.ppq, pp.mpq]
+                        if op.get("np"):
+                            res.probe("reclocked_numpy_int")
+                    outcome = [int(pp.ppq), int(pp.mpq)]
                 elif k == "rebuild":
                     res.probe("rebuild")
                     na = pp.note_array()
